@@ -1,7 +1,7 @@
 (* C14 -- Statistics equal ground truth computed from the input.  Property theorems only. *)
 From Coq Require Import List NArith.
 From FP Require Import Model.Base Model.Rdh Model.Scanner Model.Collector Model.System Spec.Framing Spec.GroundTruth
-  Proofs.C03_proofs Proofs.C05_proofs Proofs.C14_proofs.
+  Proofs.C03_proofs Proofs.C05_proofs Proofs.C14_proofs Proofs.C14_run.
 From FP Require Gen.Facts.
 Import ListNotations.
 Open Scope N_scope.
@@ -66,7 +66,27 @@ Example C14_nonvacuous :
     [2; 1; 0; 0] ++ [1; 1; 0; 0; 0; 0; 0; 0; 0; 1; 0; 1; 0; 1; 1; 0; 0; 0; 0; 0] ++ [0; 0; 0; 0; 0; 0; 0].
 Proof. split; [exact f1_wf|]. split; [vm_compute; reflexivity|]. split; vm_compute; reflexivity. Qed.
 
+(* ONE WHOLE `check` RUN: what the run ENDS with -- after the messages of every validator thread, the custom checks and the
+   finalisation; the state the report is printed from and the statistics file is written from -- equals the ground truth: RDHs
+   visited / matching the filter / payload bytes, the SORTED set of links, FEE ids in first-seen order, stop-bit packets and the 20
+   trigger-bit counts of the analysed packets, version / run trigger type / data format / system id of the first header, and the
+   distinct error codes are those of the stored messages.  For every well-framed input, filter, mode and option. *)
+Theorem C14_whole_run : forall c pkts ff s shown e, Forall wf_pkt pkts -> N.of_nat (length pkts) < U32_MAX -> pay_all pkts < U32_MAX ->
+  run_check ff c (serialize pkts) = R_done s shown e ->
+  let sc := rc_scan c in
+  let t := truth (match sc_filter sc with Some _ => true | None => false end) (pmatch sc) pkts in
+  counter s IDX_SEEN = gt_rdhs_seen t /\ counter s IDX_FILTERED = gt_rdhs_filtered t /\ counter s IDX_PAYLOAD = gt_payload t /\
+  k_links s = sort_N_list (gt_links t) /\ k_fees s = gt_fees t /\
+  counter s IDX_HBFS = gt_hbfs (sel_pkts sc pkts) /\
+  (forall j, (j < 20)%nat -> counter s (4 + j) = gt_trigger_bit (nth j trigger_bits 0) (sel_pkts sc pkts)) /\
+  (forall p r, pkts = p :: r -> known_sysid (r_system_id (hdr p)) = true ->
+     k_version s = Some (r_header_id (hdr p)) /\ k_run_trigger s = Some (r_trigger_type (hdr p)) /\
+     k_format s = Some (rdh_data_format (hdr p)) /\ k_sysid s = Some (r_system_id (hdr p)) /\ k_set_twice s = false) /\
+  k_unique s = unique_error_codes (k_errors s) (k_custom s) /\ k_finalized s = true.
+Proof. exact (fun c pkts ff s shown e H1 H2 H3 => c14_whole_run c pkts (eq_refl : Gen.Facts.cdp_offset_sampled_after = true) H1 H2 H3 ff s shown e). Qed.
+
 Print Assumptions C14_statistics_equal_ground_truth.
 Print Assumptions C14_scanner_statistics.
 Print Assumptions C14_finalize.
 Print Assumptions C14_error_total.
+Print Assumptions C14_whole_run.
